@@ -22,8 +22,8 @@ NCPU = 16
 
 # per-property configuration: cases are per worker
 CONF = {
-    "C20P": dict(level="fault_enumeration", workers=16, quick=dict(cases=700, size=60), thorough=dict(cases=20000, size=100)),
-    "C20": dict(enumerate=True, also=dict(quick=[("C20P", 700)], thorough=[("C20P", 20000)]), level="fault_enumeration", workers=16, quick=dict(cases=500, size=50), thorough=dict(cases=12000, size=80)),
+    "C20P": dict(level="fault_enumeration", workers=16, quick=dict(cases=2500, size=60), thorough=dict(cases=20000, size=100)),
+    "C20": dict(enumerate=True, also=dict(quick=[("C20P", 2500)], thorough=[("C20P", 20000)]), level="fault_enumeration", workers=16, quick=dict(cases=500, size=50), thorough=dict(cases=12000, size=80)),
     "C01": dict(level="exploration", workers=16, quick=dict(cases=220, size=60), thorough=dict(cases=4000, size=100)),
     "C02": dict(level="exploration", workers=16, quick=dict(cases=4000, size=60), thorough=dict(cases=60000, size=100)),
     "C03": dict(also=dict(quick=[("C18Q", 600), ("C04", 800)], thorough=[("C18Q", 10000), ("C04", 12000)]), level="exploration", workers=16, quick=dict(cases=4000, size=60), thorough=dict(cases=75000, size=100)),
